@@ -1,0 +1,626 @@
+//! Verification facade. Compiled only with `--cfg transparencies_stretto_verif`;
+//! nothing in here is reachable from a normal build.
+//!
+//! It offers: a settable virtual clock for `ttl::Time`, yield points between the
+//! critical sections of the cache, parking (instead of spawning) of the two
+//! background processors so that a harness can step them, read-only snapshots
+//! of the internal state, and thin public wrappers around the crate-private
+//! sketch / bloom / policy types.
+use std::any::Any;
+use std::cell::{Cell, RefCell};
+use std::sync::Arc;
+
+use parking_lot::{Mutex, RwLock};
+
+/// Virtual clock used by `ttl::Time` when the guard is on.
+pub mod clock {
+    use std::sync::atomic::{AtomicBool, AtomicU64, Ordering};
+    use std::time::{Duration, SystemTimeError};
+
+    static VIRTUAL: AtomicBool = AtomicBool::new(false);
+    static NOW_NANOS: AtomicU64 = AtomicU64::new(0);
+
+    /// Switch to virtual time, starting at `nanos` since the Unix epoch.
+    pub fn set_virtual(nanos: u64) {
+        NOW_NANOS.store(nanos, Ordering::SeqCst);
+        VIRTUAL.store(true, Ordering::SeqCst);
+    }
+
+    /// Back to the real clock.
+    pub fn set_real() {
+        VIRTUAL.store(false, Ordering::SeqCst);
+    }
+
+    /// Current virtual time (nanoseconds since the epoch).
+    pub fn now_nanos() -> u64 {
+        NOW_NANOS.load(Ordering::SeqCst)
+    }
+
+    /// Same surface as `std::time::SystemTime` as far as `ttl.rs` uses it.
+    #[derive(Copy, Clone, Eq, PartialEq, Ord, PartialOrd, Hash, Debug)]
+    pub struct SystemTime(std::time::SystemTime);
+
+    pub const UNIX_EPOCH: SystemTime = SystemTime(std::time::UNIX_EPOCH);
+
+    impl SystemTime {
+        pub fn now() -> Self {
+            if VIRTUAL.load(Ordering::SeqCst) {
+                SystemTime(
+                    std::time::UNIX_EPOCH + Duration::from_nanos(NOW_NANOS.load(Ordering::SeqCst)),
+                )
+            } else {
+                SystemTime(std::time::SystemTime::now())
+            }
+        }
+
+        pub fn duration_since(&self, earlier: SystemTime) -> Result<Duration, SystemTimeError> {
+            self.0.duration_since(earlier.0)
+        }
+
+        pub fn elapsed(&self) -> Result<Duration, SystemTimeError> {
+            Self::now().0.duration_since(self.0)
+        }
+
+        /// nanoseconds since the epoch
+        pub fn nanos(&self) -> u64 {
+            self.0
+                .duration_since(std::time::UNIX_EPOCH)
+                .map(|d| d.as_nanos() as u64)
+                .unwrap_or(0)
+        }
+    }
+}
+
+// ---------------------------------------------------------------------------
+// yield points and events
+
+/// Called at every yield point with its name. Names starting with `block:` /
+/// `unblock:` bracket a call that may block in a real primitive.
+pub type YieldHook = dyn Fn(&'static str) + Send + Sync;
+
+static YIELD_HOOK: RwLock<Option<Arc<YieldHook>>> = RwLock::new(None);
+
+pub fn set_yield_hook(h: Option<Arc<YieldHook>>) {
+    *YIELD_HOOK.write() = h;
+}
+
+#[inline]
+pub fn yield_point(name: &'static str) {
+    let h = YIELD_HOOK.read().clone();
+    if let Some(h) = h {
+        h(name)
+    }
+}
+
+/// Observations emitted from inside critical sections.
+#[derive(Clone, Debug)]
+pub enum Event {
+    /// one round of the eviction loop of `policy.add`
+    Round {
+        incoming: u64,
+        inc_hits: i64,
+        room: i64,
+        sample: Vec<(u64, i64, i64)>,
+        min_key: u64,
+        min_hits: i64,
+        rejected: bool,
+    },
+    /// result of `policy.add`
+    Add {
+        key: u64,
+        cost: i64,
+        added: bool,
+        victims: Option<Vec<(u64, i64)>>,
+        path: &'static str,
+    },
+    /// a `Wait` marker was released
+    WaitDone,
+    /// free-form
+    Note(&'static str, i64),
+}
+
+static EVENTS: Mutex<Vec<Event>> = Mutex::new(Vec::new());
+static EVENTS_ON: std::sync::atomic::AtomicBool = std::sync::atomic::AtomicBool::new(false);
+
+pub fn events_enable(on: bool) {
+    EVENTS_ON.store(on, std::sync::atomic::Ordering::SeqCst);
+    EVENTS.lock().clear();
+}
+
+#[inline]
+pub fn emit(ev: impl FnOnce() -> Event) {
+    if EVENTS_ON.load(std::sync::atomic::Ordering::SeqCst) {
+        EVENTS.lock().push(ev());
+    }
+}
+
+pub fn drain_events() -> Vec<Event> {
+    std::mem::take(&mut *EVENTS.lock())
+}
+
+// ---------------------------------------------------------------------------
+// parking of the background processors
+
+thread_local! {
+    static PARK: Cell<bool> = const { Cell::new(false) };
+    static PARKED: RefCell<Vec<Box<dyn Any + Send>>> = const { RefCell::new(Vec::new()) };
+}
+
+/// Run `f` (a `finalize()` call); every processor it would have spawned is
+/// handed back instead of being started.
+pub fn build_parked<T>(f: impl FnOnce() -> T) -> (T, Vec<Box<dyn Any + Send>>) {
+    PARK.with(|p| p.set(true));
+    let r = f();
+    PARK.with(|p| p.set(false));
+    let v = PARKED.with(|p| std::mem::take(&mut *p.borrow_mut()));
+    (r, v)
+}
+
+pub(crate) fn park_requested() -> bool {
+    PARK.with(|p| p.get())
+}
+
+pub(crate) fn park(b: Box<dyn Any + Send>) {
+    PARKED.with(|p| p.borrow_mut().push(b));
+}
+
+/// Which arm of the processor's `select!` to take.
+#[derive(Copy, Clone, Debug, Eq, PartialEq)]
+pub enum Branch {
+    Insert,
+    Clear,
+    Tick,
+    Stop,
+}
+
+/// What one loop iteration did.
+#[derive(Clone, Debug, Eq, PartialEq)]
+pub enum Stepped {
+    /// that arm was not ready
+    NotReady,
+    /// handler ran
+    Done,
+    /// handler ran and returned an error (the real loop logs it and goes on)
+    Failed(String),
+    /// the loop returned
+    Exited,
+}
+
+// ---------------------------------------------------------------------------
+// snapshots
+
+#[derive(Clone, Debug)]
+pub struct Entry<V> {
+    pub index: u64,
+    pub conflict: u64,
+    pub value: V,
+    /// ttl in nanoseconds (0 = none)
+    pub d: u64,
+    /// creation instant, nanoseconds since the epoch
+    pub at: u64,
+}
+
+#[derive(Clone, Debug)]
+pub struct Snapshot<V> {
+    pub entries: Vec<Entry<V>>,
+    /// (bucket number, [(index, conflict)])
+    pub buckets: Vec<(i64, Vec<(u64, u64)>)>,
+    pub costs: Vec<(u64, i64)>,
+    pub used: i64,
+    pub max_cost: i64,
+    pub buf_len: usize,
+    pub clear_len: usize,
+    pub stop_len: usize,
+    pub ring_len: usize,
+    pub pol_queue_len: usize,
+    pub closed: bool,
+    pub pol_closed: bool,
+    pub len: usize,
+    pub tiny_w: usize,
+}
+
+#[cfg(feature = "sync")]
+mod sync_facade {
+    use super::*;
+    use crate::cache::sync_verif::*;
+    use crate::{Cache, CacheCallback, Coster, KeyBuilder, UpdateValidator};
+    use std::hash::{BuildHasher, Hash};
+
+    /// The parked cache processor of a `Cache`.
+    pub struct SyncProc<V, U, CB, S>(pub(crate) Proc<V, U, CB, S>);
+
+    impl<V, U, CB, S> SyncProc<V, U, CB, S>
+    where
+        V: Send + Sync + 'static,
+        U: UpdateValidator<Value = V>,
+        CB: CacheCallback<Value = V>,
+        S: BuildHasher + Clone + 'static + Send + Sync,
+    {
+        pub fn from_any(b: Box<dyn Any + Send>) -> Result<Self, Box<dyn Any + Send>> {
+            b.downcast::<Proc<V, U, CB, S>>().map(|p| SyncProc(*p))
+        }
+
+        /// One iteration of the processor loop, taking arm `b`.
+        pub fn step(&mut self, b: Branch) -> Stepped {
+            self.0.verif_step(b)
+        }
+
+        pub fn start_ts_len(&self) -> usize {
+            self.0.start_ts.len()
+        }
+
+        pub fn item_size(&self) -> usize {
+            self.0.item_size
+        }
+
+        /// Hand the processor to its real loop on a real thread.
+        pub fn spawn_real(self) -> std::thread::JoinHandle<Result<(), crate::CacheError>> {
+            self.0.spawn()
+        }
+    }
+
+    /// The parked policy processor.
+    pub struct SyncPolicyProc<S>(pub(crate) crate::policy::sync_verif::PProc<S>);
+
+    impl<S: BuildHasher + Clone + 'static> SyncPolicyProc<S> {
+        pub fn from_any(b: Box<dyn Any + Send>) -> Result<Self, Box<dyn Any + Send>> {
+            b.downcast::<crate::policy::sync_verif::PProc<S>>()
+                .map(|p| SyncPolicyProc(*p))
+        }
+
+        /// `Insert` = take one batch, `Stop` = take the stop signal.
+        pub fn step(&mut self, b: Branch) -> Stepped {
+            self.0.verif_step(b)
+        }
+
+        pub fn spawn_real(self) -> std::thread::JoinHandle<()> {
+            self.0.verif_spawn()
+        }
+    }
+
+    pub fn snapshot_sync<K, V, KH, C, U, CB, S>(c: &Cache<K, V, KH, C, U, CB, S>) -> Snapshot<V>
+    where
+        K: Hash + Eq,
+        V: Send + Sync + 'static + Clone,
+        KH: KeyBuilder<Key = K>,
+        C: Coster<Value = V>,
+        U: UpdateValidator<Value = V>,
+        CB: CacheCallback<Value = V>,
+        S: BuildHasher + Clone + 'static + Send + Sync,
+    {
+        let (costs, used, max_cost, tiny_w) = c.policy.verif_costs();
+        Snapshot {
+            entries: c.store.verif_entries(),
+            buckets: c.store.verif_buckets(),
+            costs,
+            used,
+            max_cost,
+            buf_len: c.insert_buf_tx.len(),
+            clear_len: c.clear_tx.len(),
+            stop_len: c.stop_tx.len(),
+            ring_len: c.get_buf.verif_len(),
+            pol_queue_len: c.policy.items_tx.len(),
+            closed: c.is_closed.load(std::sync::atomic::Ordering::SeqCst),
+            pol_closed: c.policy.is_closed.load(std::sync::atomic::Ordering::SeqCst),
+            len: c.store.len(),
+            tiny_w,
+        }
+    }
+
+    /// TinyLFU estimate of an index hash, as the policy sees it.
+    pub fn estimate_sync<K, V, KH, C, U, CB, S>(c: &Cache<K, V, KH, C, U, CB, S>, k: u64) -> i64
+    where
+        K: Hash + Eq,
+        V: Send + Sync + 'static,
+        KH: KeyBuilder<Key = K>,
+        C: Coster<Value = V>,
+        U: UpdateValidator<Value = V>,
+        CB: CacheCallback<Value = V>,
+        S: BuildHasher + Clone + 'static + Send + Sync,
+    {
+        c.policy.verif_estimate(k)
+    }
+
+    /// A stand-alone `LFUPolicy` with its processor parked.
+    pub struct SyncPolicy<S = std::collections::hash_map::RandomState> {
+        pub(crate) p: crate::policy::LFUPolicy<S>,
+    }
+
+    impl SyncPolicy {
+        pub fn new(ctrs: usize, max_cost: i64) -> Result<(Self, SyncPolicyProc<std::collections::hash_map::RandomState>), crate::CacheError> {
+            let (p, mut parked) = build_parked(|| crate::policy::LFUPolicy::new(ctrs, max_cost));
+            let p = p?;
+            let proc_ = SyncPolicyProc::from_any(parked.pop().expect("policy processor parked"))
+                .ok()
+                .expect("policy processor type");
+            Ok((SyncPolicy { p }, proc_))
+        }
+    }
+
+    impl<S: BuildHasher + Clone + 'static> SyncPolicy<S> {
+        pub fn add(&self, key: u64, cost: i64) -> (Option<Vec<(u64, i64)>>, bool) {
+            let (v, a) = self.p.add(key, cost);
+            (v.map(|v| v.iter().map(|p| (p.key, p.cost)).collect()), a)
+        }
+        pub fn update(&self, key: u64, cost: i64) {
+            self.p.update(&key, cost)
+        }
+        pub fn remove(&self, key: u64) {
+            self.p.remove(&key)
+        }
+        pub fn contains(&self, key: u64) -> bool {
+            self.p.contains(&key)
+        }
+        pub fn cost(&self, key: u64) -> i64 {
+            self.p.cost(&key)
+        }
+        pub fn cap(&self) -> i64 {
+            self.p.cap()
+        }
+        pub fn clear(&self) {
+            self.p.clear()
+        }
+        pub fn max_cost(&self) -> i64 {
+            self.p.max_cost()
+        }
+        pub fn update_max_cost(&self, m: i64) {
+            self.p.update_max_cost(m)
+        }
+        pub fn push(&self, keys: Vec<u64>) -> Result<bool, crate::CacheError> {
+            self.p.push(keys)
+        }
+        pub fn close(&self) -> Result<(), crate::CacheError> {
+            self.p.close()
+        }
+        pub fn estimate(&self, key: u64) -> i64 {
+            self.p.verif_estimate(key)
+        }
+        /// record `n` accesses of `key` directly in the TinyLFU
+        pub fn bump(&self, key: u64, n: usize) {
+            self.p.verif_bump(key, n)
+        }
+        /// (key costs, used, max_cost, tinylfu w)
+        pub fn costs(&self) -> (Vec<(u64, i64)>, i64, i64, usize) {
+            self.p.verif_costs()
+        }
+        pub fn collect_metrics(&mut self, m: Arc<crate::Metrics>) {
+            self.p.collect_metrics(m)
+        }
+    }
+}
+#[cfg(feature = "sync")]
+pub use sync_facade::*;
+
+#[cfg(feature = "async")]
+mod async_facade {
+    use super::*;
+    use crate::cache::async_verif::*;
+    use crate::{AsyncCache, CacheCallback, Coster, KeyBuilder, UpdateValidator};
+    use std::hash::{BuildHasher, Hash};
+
+    /// The parked cache processor of an `AsyncCache`.
+    pub struct AsyncProc<V, U, CB, S>(pub(crate) AProc<V, U, CB, S>);
+
+    impl<V, U, CB, S> AsyncProc<V, U, CB, S>
+    where
+        V: Send + Sync + 'static,
+        U: UpdateValidator<Value = V>,
+        CB: CacheCallback<Value = V>,
+        S: BuildHasher + Clone + 'static + Send + Sync,
+    {
+        pub fn from_any(b: Box<dyn Any + Send>) -> Result<Self, Box<dyn Any + Send>> {
+            b.downcast::<AProc<V, U, CB, S>>().map(|p| AsyncProc(*p))
+        }
+
+        pub fn step(&mut self, b: Branch) -> Stepped {
+            self.0.verif_step(b)
+        }
+
+        pub fn start_ts_len(&self) -> usize {
+            self.0.verif_start_ts_len()
+        }
+
+        pub fn item_size(&self) -> usize {
+            self.0.verif_item_size()
+        }
+    }
+
+    pub struct AsyncPolicyProc<S>(pub(crate) crate::policy::async_verif::APProc<S>);
+
+    impl<S: BuildHasher + Clone + 'static + Send> AsyncPolicyProc<S> {
+        pub fn from_any(b: Box<dyn Any + Send>) -> Result<Self, Box<dyn Any + Send>> {
+            b.downcast::<crate::policy::async_verif::APProc<S>>()
+                .map(|p| AsyncPolicyProc(*p))
+        }
+
+        pub fn step(&mut self, b: Branch) -> Stepped {
+            self.0.verif_step(b)
+        }
+    }
+
+    pub fn snapshot_async<K, V, KH, C, U, CB, S>(
+        c: &AsyncCache<K, V, KH, C, U, CB, S>,
+    ) -> Snapshot<V>
+    where
+        K: Hash + Eq,
+        V: Send + Sync + 'static + Clone,
+        KH: KeyBuilder<Key = K>,
+        C: Coster<Value = V>,
+        U: UpdateValidator<Value = V>,
+        CB: CacheCallback<Value = V>,
+        S: BuildHasher + Clone + 'static + Send + Sync,
+    {
+        let (costs, used, max_cost, tiny_w) = c.policy.verif_costs();
+        Snapshot {
+            entries: c.store.verif_entries(),
+            buckets: c.store.verif_buckets(),
+            costs,
+            used,
+            max_cost,
+            buf_len: c.insert_buf_tx.len(),
+            clear_len: c.clear_tx.len(),
+            stop_len: c.stop_tx.len(),
+            ring_len: c.get_buf.verif_len(),
+            pol_queue_len: c.policy.items_tx.len(),
+            closed: c.is_closed.load(std::sync::atomic::Ordering::SeqCst),
+            pol_closed: c.policy.is_closed.load(std::sync::atomic::Ordering::SeqCst),
+            len: c.store.len(),
+            tiny_w,
+        }
+    }
+
+    pub fn estimate_async<K, V, KH, C, U, CB, S>(
+        c: &AsyncCache<K, V, KH, C, U, CB, S>,
+        k: u64,
+    ) -> i64
+    where
+        K: Hash + Eq,
+        V: Send + Sync + 'static,
+        KH: KeyBuilder<Key = K>,
+        C: Coster<Value = V>,
+        U: UpdateValidator<Value = V>,
+        CB: CacheCallback<Value = V>,
+        S: BuildHasher + Clone + 'static + Send + Sync,
+    {
+        c.policy.verif_estimate(k)
+    }
+}
+#[cfg(feature = "async")]
+pub use async_facade::*;
+
+// ---------------------------------------------------------------------------
+// wrappers around the crate-private pure components
+
+/// `sketch::CountMinRow`
+pub struct Row(crate::sketch::CountMinRow);
+
+impl Row {
+    pub fn new(width_bytes: u64) -> Self {
+        Row(crate::sketch::CountMinRow::new(width_bytes))
+    }
+    pub fn get(&self, i: u64) -> u8 {
+        self.0.get(i)
+    }
+    pub fn increment(&mut self, i: u64) {
+        self.0.increment(i)
+    }
+    pub fn reset(&mut self) {
+        self.0.reset()
+    }
+    pub fn clear(&mut self) {
+        self.0.clear()
+    }
+    pub fn bytes(&self) -> Vec<u8> {
+        self.0.verif_bytes().to_vec()
+    }
+}
+
+/// `sketch::CountMinSketch`
+pub struct Sketch(crate::sketch::CountMinSketch);
+
+impl Sketch {
+    pub fn new(ctrs: u64) -> Result<Self, crate::CacheError> {
+        crate::sketch::CountMinSketch::new(ctrs).map(Sketch)
+    }
+    pub fn increment(&mut self, h: u64) {
+        self.0.increment(h)
+    }
+    pub fn estimate(&self, h: u64) -> i64 {
+        self.0.estimate(h)
+    }
+    pub fn reset(&mut self) {
+        self.0.reset()
+    }
+    pub fn clear(&mut self) {
+        self.0.clear()
+    }
+    pub fn seeds(&self) -> [u64; 4] {
+        self.0.verif_seeds()
+    }
+    pub fn set_seeds(&mut self, s: [u64; 4]) {
+        self.0.verif_set_seeds(s)
+    }
+    pub fn mask(&self) -> u64 {
+        self.0.verif_mask()
+    }
+    pub fn rows(&self) -> Vec<Vec<u8>> {
+        self.0.verif_rows()
+    }
+}
+
+/// `bbloom::Bloom`
+pub struct BloomF(crate::bbloom::Bloom);
+
+impl BloomF {
+    pub fn new(cap: usize, rate: f64) -> Self {
+        BloomF(crate::bbloom::Bloom::new(cap, rate))
+    }
+    pub fn add(&mut self, h: u64) {
+        self.0.add(h)
+    }
+    pub fn contains(&self, h: u64) -> bool {
+        self.0.contains(h)
+    }
+    pub fn contains_or_add(&mut self, h: u64) -> bool {
+        self.0.contains_or_add(h)
+    }
+    pub fn reset(&mut self) {
+        self.0.reset()
+    }
+    pub fn clear(&mut self) {
+        self.0.clear()
+    }
+    /// (size_exp, size mask, set_locs, shift, words)
+    pub fn params(&self) -> (u64, u64, u64, u64, usize) {
+        self.0.verif_params()
+    }
+    pub fn words(&self) -> Vec<u64> {
+        self.0.verif_words()
+    }
+}
+
+/// `policy::TinyLFU`
+pub struct Tiny(crate::policy::TinyLFU);
+
+impl Tiny {
+    pub fn new(n: usize) -> Result<Self, crate::CacheError> {
+        crate::policy::TinyLFU::new(n).map(Tiny)
+    }
+    pub fn estimate(&self, h: u64) -> i64 {
+        self.0.estimate(h)
+    }
+    pub fn increment(&mut self, h: u64) {
+        self.0.increment(h)
+    }
+    pub fn increments(&mut self, hs: Vec<u64>) {
+        self.0.increments(hs)
+    }
+    pub fn clear(&mut self) {
+        self.0.clear()
+    }
+    pub fn contains(&self, h: u64) -> bool {
+        self.0.contains(h)
+    }
+    /// (w, samples)
+    pub fn w(&self) -> (usize, usize) {
+        self.0.verif_w()
+    }
+    pub fn sketch_seeds(&self) -> [u64; 4] {
+        self.0.verif_sketch().verif_seeds()
+    }
+    pub fn set_sketch_seeds(&mut self, s: [u64; 4]) {
+        self.0.verif_sketch_mut().verif_set_seeds(s)
+    }
+    pub fn sketch_mask(&self) -> u64 {
+        self.0.verif_sketch().verif_mask()
+    }
+    pub fn sketch_rows(&self) -> Vec<Vec<u8>> {
+        self.0.verif_sketch().verif_rows()
+    }
+    pub fn door_params(&self) -> (u64, u64, u64, u64, usize) {
+        self.0.verif_door().verif_params()
+    }
+    pub fn door_words(&self) -> Vec<u64> {
+        self.0.verif_door().verif_words()
+    }
+}
